@@ -244,7 +244,8 @@ def gen_defsets(rng):
     return sets
 
 
-EDIT_CHARS = ["\\", "/", "*", "\t", "'", '"', "&", "!", "#", "$", " ", "\n", "/*", "*/", "//", "\\\n", "a", "&\n", "\n&"]
+EDIT_CHARS = ["\\", "/", "*", "\t", "'", '"', "&", "!", "#", "$", " ", "\n", "/*", "*/", "//", "\\\n", "a", "&\n", "\n&",
+              "\x0b", "\x0c", "\x1c", "\x1f", "\\\\", "\n#", "~", "1", "_"]
 
 
 def mutate(rng, text):
